@@ -9,6 +9,7 @@ import XotModel.Lemmas.ForestBasic
 import XotModel.Lemmas.FspecDetach
 import XotModel.Lemmas.FspecAppend
 import XotModel.Lemmas.FspecContent
+import XotModel.Lemmas.FspecSame
 
 namespace XotModel.Props
 open XotModel XotModel.Spec
@@ -97,10 +98,10 @@ theorem C05_samepos_append {f : Forest} {p c : Nat} (hc : f.structureCheck (some
 
 /-! ### prepend, insert_after, insert_before
 
-  Proved when the moved node is not, before the call, a child of the destination parent
-  (`_partial`: the extra hypothesis is exactly "the node comes from another child list or is a
-  parentless tree"; the remaining case — reordering within one child list — is covered by the
-  correspondence suite `fspec` and, for `append`, by `C05_append`). -/
+  `insert_after` is proved in full.  `prepend` and `insert_before` are proved when the moved node
+  is not, before the call, a child of the destination parent (`_partial`: the extra hypothesis is
+  exactly "the node comes from another child list or is a parentless tree"; the remaining case —
+  reordering within one child list — is covered by the correspondence suite `fspec`). -/
 
 /-- `prepend(p, c)`, content. -/
 theorem C05_prepend_partial {f : Forest} {p c : Nat} (inv : f.Inv) (norm : f.Normal)
@@ -114,15 +115,19 @@ theorem C05_prepend_resident_partial {f : Forest} {p c : Nat} (inv : f.Inv) (nor
     (f.prepend p c).1 = specMove (Keep.resident c) (.firstNormalChildOf p) c f :=
   prepend_spec_far inv norm hfar hok
 
-theorem C05_insertAfter_partial {f : Forest} {r c : Nat} (inv : f.Inv) (norm : f.Normal)
-    (hfar : f.parent? c ≠ f.parent? r) (hok : (f.insertAfter r c).2 = .ok) :
+/-- `insert_after(r, c)`: all geometries (the node may come from anywhere, including the child
+    list of `r`'s parent, including the case where `r` itself is the text node consumed by the
+    merge at the old place). Content: -/
+theorem C05_insertAfter {f : Forest} {r c : Nat} (inv : f.Inv) (norm : f.Normal)
+    (hok : (f.insertAfter r c).2 = .ok) :
     (f.insertAfter r c).1.content = (specMove Keep.earlier (.after r) c f).content :=
-  insertAfter_content_far inv norm hfar hok
+  insertAfter_content inv norm hok
 
-theorem C05_insertAfter_resident_partial {f : Forest} {r c : Nat} (inv : f.Inv) (norm : f.Normal)
-    (hfar : f.parent? c ≠ f.parent? r) (hok : (f.insertAfter r c).2 = .ok) :
+/-- … and handle for handle, with xot's survivor rule. -/
+theorem C05_insertAfter_resident {f : Forest} {r c : Nat} (inv : f.Inv) (norm : f.Normal)
+    (hok : (f.insertAfter r c).2 = .ok) :
     (f.insertAfter r c).1 = specMove (Keep.resident c) (.after r) c f :=
-  insertAfter_spec_far inv norm hfar hok
+  insertAfter_spec inv norm hok
 
 theorem C05_insertBefore_partial {f : Forest} {r c : Nat} (inv : f.Inv) (norm : f.Normal)
     (hfar : f.parent? c ≠ f.parent? r) (hok : (f.insertBefore r c).2 = .ok) :
